@@ -72,6 +72,8 @@ def generate(rng, tier):
                                      10 ** rng.uniform(-2.3, 2.5)])}        # EUV ... far infrared
             if fmt == "codev" and rng.random() < 0.4:
                 op["cv"] = {"typ": rng.choice(["SUR", "WFR", "wfr"]), "nnb": rng.random() < 0.5}
+            if rng.random() < 0.15:
+                op["pathobj"] = True          # the file named by a pathlib.Path instead of a string
             if fmt == "ifg" and rng.random() < 0.05:
                 op["dx"] = 0.0          # the library's "no lateral calibration" marker
             if fmt == "ifg" and rng.random() < 0.25:
@@ -111,6 +113,8 @@ def generate(rng, tier):
             ops.append({"op": "read", "path": ops[-1]["path"], "via": rng.choice(["io", "ifg"])})
         elif c < 0.8:
             op = {"op": "read", "path": rng.choice(written), "via": rng.choice(["io", "io", "ifg"])}
+            if rng.random() < 0.15:
+                op["pathobj"] = True
             if cfg["faults"] and rng.random() < 0.06:
                 op["eio"] = True
             ops.append(op)
@@ -243,7 +247,15 @@ def _intensity(np, z, kind):
     return a.astype({"f64": np.float64, "f32": np.float32, "u16": np.uint16}[kind])
 
 
-def _write(w, fmt, path, z, dx, wvl, cv=None, holder=None, prep=None, inten=None):
+def _pform(path, as_obj):
+    if as_obj:
+        import pathlib
+        return pathlib.PurePosixPath(path) if False else pathlib.Path(path)
+    return path
+
+
+def _write(w, fmt, path, z, dx, wvl, cv=None, holder=None, prep=None, inten=None, pathobj=False):
+    path = _pform(path, pathobj)
     """Call the real writer with the caller's own array object (no defensive copy:
     that is what user code does).  `holder` keeps the caller's Interferogram."""
     from prysm.interferogram import Interferogram
@@ -429,7 +441,7 @@ def _region(entry, spans, k):
 # ---------------------------------------------------------------------------
 # reading + judging
 
-def _read(w, entry, via, eio=False):
+def _read(w, entry, via, eio=False, pathobj=False):
     """Returns (outcome, array|None, dx, wvl, warned, exc)."""
     import warnings
     from prysm.interferogram import Interferogram
@@ -443,6 +455,7 @@ def _read(w, entry, via, eio=False):
     # library that silences warnings globally also silences its own truncation warning
     with warnings.catch_warnings(record=True) as rec:
         try:
+            path = _pform(path, pathobj)
             if entry["fmt"] == "codev":
                 arr, meta = w.pio.read_codev_gridint(path)
             elif via == "ifg":
@@ -763,7 +776,8 @@ def execute(plan):
             out = "ok"
             prev_entry, prev_bytes = model.get(path), w.disk.files.get(path)
             try:
-                _write(w, fmt, path, z, op["dx"], op["wvl"], op.get("cv"), holder, op.get("prep"), op.get("intensity"))
+                _write(w, fmt, path, z, op["dx"], op["wvl"], op.get("cv"), holder, op.get("prep"), op.get("intensity"),
+                       bool(op.get("pathobj")) and fmt != "zygo_file")
             except SimCrash:
                 out = "crash"
             except Exception as e:
@@ -850,7 +864,7 @@ def execute(plan):
                 ev["region"] = _region(entry, spans, kk)
             elif k == "read":
                 cur_len = len(w.disk.files[path])
-                res = _read(w, entry, op.get("via", "io"), eio=bool(op.get("eio")))
+                res = _read(w, entry, op.get("via", "io"), eio=bool(op.get("eio")), pathobj=bool(op.get("pathobj")))
                 ev["k"] = cur_len
                 ev["out"] = res[0] + (":" + type(res[5]).__name__ if res[5] is not None else "") + (":warned" if res[4] else "")
                 if res[1] is not None:
